@@ -1,6 +1,7 @@
 (** Property C18 -- tab stops.
     Only pinned statements, closed by [exact], with their assumptions printed. *)
 From Avt Require Import Oracles.Step Proofs.Inv Proofs.Tabs Proofs.StepC18.
+From Avt Require Import Gen.BufFns Proofs.BufTie.
 
 Theorem C18_new : forall c k, is_stop (tabs_new c) k = default_stop c k.
 Proof. exact tabs_new_spec. Qed.
@@ -56,3 +57,45 @@ Theorem C18_resize_statement : forall p p' t c r t', TInv t -> 1 <= c -> 1 <= r 
 Proof. exact C18_resize_holds. Qed.
 Check C18_resize_statement : forall p p' t c r t', TInv t -> 1 <= c -> 1 <= r -> term_resize t c r = Ok t' -> holds_C18_resize (mkVt p t) (mkVt p' t') = true /\ (tabs_are_default t = true -> tabs_are_default t' = true).
 Print Assumptions C18_resize_statement.
+
+(** SOURCE TIE BY PROOF: the function is REGENERATED from the Rust source on every run (Gen/BufFns.v, translate/buf2coq.py: slice and Vec idioms into the model's list primitives, every Rust panic condition as a guard) and the hand-written model function is proved equal to it (=~ : equal up to the panic-site number) - an edit to the Rust function breaks this theorem (Tabs::set) *)
+Theorem C18_source_set : forall l pos, g_tabs_set l pos = Ok (tabs_set pos l).
+Proof. exact tie_tabs_set. Qed.
+Check C18_source_set : forall l pos, g_tabs_set l pos = Ok (tabs_set pos l).
+Print Assumptions C18_source_set.
+
+(** Tabs::unset (binary search: on the sorted vector of the invariant) *)
+Theorem C18_source_unset : forall l pos, sorted_lt l -> g_tabs_unset l pos = Ok (tabs_unset pos l).
+Proof. exact tie_tabs_unset. Qed.
+Check C18_source_unset : forall l pos, sorted_lt l -> g_tabs_unset l pos = Ok (tabs_unset pos l).
+Print Assumptions C18_source_unset.
+
+(** Tabs::expand *)
+Theorem C18_source_expand : forall l s e, g_tabs_expand l s e = Ok (tabs_expand s e l).
+Proof. exact tie_tabs_expand. Qed.
+Check C18_source_expand : forall l s e, g_tabs_expand l s e = Ok (tabs_expand s e l).
+Print Assumptions C18_source_expand.
+
+(** Tabs::contract *)
+Theorem C18_source_contract : forall l pos, g_tabs_contract l pos = Ok (tabs_contract pos l).
+Proof. exact tie_tabs_contract. Qed.
+Check C18_source_contract : forall l pos, g_tabs_contract l pos = Ok (tabs_contract pos l).
+Print Assumptions C18_source_contract.
+
+(** Tabs::before *)
+Theorem C18_source_before : forall l pos n, g_tabs_before l pos n =~ tabs_before l pos n.
+Proof. exact tie_tabs_before. Qed.
+Check C18_source_before : forall l pos n, g_tabs_before l pos n =~ tabs_before l pos n.
+Print Assumptions C18_source_before.
+
+(** Tabs::after *)
+Theorem C18_source_after : forall l pos n, g_tabs_after l pos n =~ tabs_after l pos n.
+Proof. exact tie_tabs_after. Qed.
+Check C18_source_after : forall l pos n, g_tabs_after l pos n =~ tabs_after l pos n.
+Print Assumptions C18_source_after.
+
+(** Tabs::new *)
+Theorem C18_source_new : forall c, g_tabs_new c = Ok (tabs_new c).
+Proof. exact tie_tabs_new. Qed.
+Check C18_source_new : forall c, g_tabs_new c = Ok (tabs_new c).
+Print Assumptions C18_source_new.
